@@ -253,6 +253,11 @@ class Caller(object):
             fn = rig_module("rig.place_and_route.place." + name).place
             if name == "rand":
                 kwargs = {"random": prgen.seeded(t)}
+        if "random" in kwargs and t.draw(3) == 0:
+            # the generator left to its documented default, the `random`
+            # module - which the caller (seed_globals) seeds before the call
+            del kwargs["random"]
+            self.w.probe("default_random_module")
         return name, fn, kwargs
 
     def seed_globals(self, t):
